@@ -1,10 +1,9 @@
 ----------------------------- MODULE MC_SeqDecoder -----------------------------
 (* Every (declared points, declared faces, method, value list) within the bounds: values grow one at a time (the state), every complete
    list (3 * nf values) is decoded by the model under every declared point count and printed as a row for drv_fault hostile.
-   Index-width boundaries are reached through the declared point count (Points contains 255, 256, 65535, 65536, 2097151, 2097152 next to
-   the small counts): the assembler stores the same small indices in 1, 2, varint or 4 bytes accordingly.                            *)
+   Index-width boundaries are reached through the declared point count (WidthPoints: 255, 256, 65535, 65536, 2097151, 2097152): the assembler stores the same small indices in 1, 2, varint or 4 bytes accordingly.                            *)
 EXTENDS SeqDecoder, Json, TLC, FiniteSets
-CONSTANTS MaxFaces, MaxVal, Points, Emit
+CONSTANTS MaxFaces, MaxVal, Points, WidthPoints, Emit
 VARIABLES vals
 Init == vals = <<>>
 Next == Len(vals) < 3 * MaxFaces /\ \E x \in 0..MaxVal : vals' = Append(vals, x)
@@ -12,7 +11,9 @@ Complete == Len(vals) % 3 = 0
 NF == Len(vals) \div 3
 Row(np, m) == LET r == Decode(NF, np, m, vals) IN
    [mode |-> "seq", nf |-> NF, npd |-> np, method |-> m, vals |-> vals, out |-> r.out, np |-> r.np, faces |-> r.faces]
-EmitRows == (Emit /\ Complete) => \A np \in Points, m \in {0, 1} : PrintT(ToJson(Row(np, m)))
-Guards == Complete => \A np \in Points, m \in {0, 1} : ConnValid(Decode(NF, np, m, vals))
+\* the large declared point counts matter to the stored-index branch only (they select the index width)
+Cases == (Points \X {0, 1}) \cup (WidthPoints \X {1})
+EmitRows == (Emit /\ Complete) => \A c \in Cases : PrintT(ToJson(Row(c[1], c[2])))
+Guards == Complete => \A c \in Cases : ConnValid(Decode(NF, c[1], c[2], vals))
 Spec == Init /\ [][Next]_vals
 =============================================================================
